@@ -50,8 +50,8 @@ CHECKS["C06"] = dict(
     engine="vsched",
     category="model_checking",
     technique="stateless model checking of the implementation (deviation-bounded DFS under a controlled scheduler, virtual time) over a cause x phase matrix, plus fault enumeration: a scripted polling session cut at every byte",
-    text="Every termination cause (client DISCONNECT frame, Disconnect(false/true), Engine.IO close with each of its five reasons, protocol error, packet for an unjoined namespace, connect timeout) in every phase (before CONNECT, namespace middleware blocked, connected idle, burst in either direction, two namespaces) and every unordered pair of causes at once is executed on the real sio.Server over a harness-implemented Engine.IO socket and explored to the deviation bound; Server.Close, Manager.Close, client Disconnect, Disconnect(true) and a black-holed link run sio<->sio over the in-process polling link; a scripted Socket.IO-over-polling session has every request body truncated and every response failed at every byte (262 cut points). Oracle: disconnecting <= 1 and before disconnect, disconnect exactly once with a reason naming an injected cause, no event handler after it, and nothing left in the namespace list, the adapter's raw room indexes, the connection's socket table or the Engine.IO session store; the old sid answers 'unknown sid'.",
-    note="Trusted: vsched semantics; rigs R1/R3 (no real TCP; a dead client is modelled by requests that stop and bodies/responses that fail mid-way); upgrade phase is covered by C07's rig, not here. Scope: bound 2 (quick) / 3 (thorough) after a default-schedule set-up.",
+    text="Every termination cause (client DISCONNECT frame, Disconnect(false/true), Engine.IO close with each of its five reasons, protocol error, packet for an unjoined namespace, connect timeout) in every phase (before CONNECT, namespace middleware blocked, connected idle, burst in either direction, two namespaces) and every unordered pair of causes at once is executed on the real sio.Server over a harness-implemented Engine.IO socket and explored to the deviation bound; Server.Close, Manager.Close, client Disconnect, Disconnect(true) and a black-holed link run sio<->sio over the in-process polling link; the same API causes, and the new pipe being cut, strike at every half latency (k*L/2, k=0..7) of a transport upgrade over the duplex pipe of rig R4 (real upgrade state machines); a scripted Socket.IO-over-polling session has every request body truncated and every response failed at every byte (262 cut points). Oracle: disconnecting <= 1 and before disconnect, disconnect exactly once with a reason naming an injected cause, no event handler after it, and nothing left in the namespace list, the adapter's raw room indexes, the connection's socket table or the Engine.IO session store; the old sid answers 'unknown sid'.",
+    note="Trusted: vsched semantics; rigs R1/R3 (no real TCP; a dead client is modelled by requests that stop and bodies/responses that fail mid-way); the upgrade phase uses C07's rig R4 (a pipe, not a real WebSocket). Scope: bound 2 (quick) / 3 (thorough) after a default-schedule set-up.",
     design="3/C06")
 CHECKS["C11"] = dict(
     engine="seq",
